@@ -1,7 +1,9 @@
 //! Shared engine code.  Everything that touches micromap lives in this crate, which has a path
 //! dependency on /repo, so every build picks up the current working tree.
 
+pub mod algebra;
 pub mod common;
+pub mod disjoint;
 pub mod fam;
 pub mod maphist;
 pub mod model;
